@@ -122,7 +122,8 @@ func checkImplementation(
 ) []InterfaceMethod {
 	var missing []InterfaceMethod
 
-	// Create index of type's methods
+	// Create index of type's methods, keyed by method identity: an unexported method of another
+	// package has the same name but is a different method (Go: "T does not implement I (unexported method m)")
 	typeMethods := make(map[string]TypeMethod)
 	for _, method := range typeModel.Methods {
 		// Filter methods based on pointer requirement
@@ -130,18 +131,18 @@ func checkImplementation(
 			// For &Interface, we need pointer receiver methods
 			// (but value receiver methods are also OK per Go spec:
 			// method set of *T includes methods with receiver T or *T)
-			typeMethods[method.Name] = method
+			typeMethods[methodKey(method.Name, method.id)] = method
 		} else {
 			// For Interface (no &), we need value receiver methods only
 			if !method.ReceiverIsPointer {
-				typeMethods[method.Name] = method
+				typeMethods[methodKey(method.Name, method.id)] = method
 			}
 		}
 	}
 
 	// Check each interface method
 	for _, ifaceMethod := range iface.Methods {
-		typeMethod, exists := typeMethods[ifaceMethod.Name]
+		typeMethod, exists := typeMethods[methodKey(ifaceMethod.Name, ifaceMethod.id)]
 		if !exists {
 			missing = append(missing, ifaceMethod)
 			continue
@@ -154,6 +155,14 @@ func checkImplementation(
 	}
 
 	return missing
+}
+
+// methodKey is the go/types identity of a method when known, else its name (hand-built models)
+func methodKey(name string, id string) string {
+	if id != "" {
+		return id
+	}
+	return name
 }
 
 // signaturesMatch checks if type method matches interface method signature
